@@ -27,13 +27,18 @@ MANIFEST = dict(
          "element and on a non-list value wraps it as [old, v] (C03_append_new), name[new()] / name[0] on a fresh name creates "
          "the one-element list (C03_new_on_fresh), name[len] on a list of length len appends exactly one element "
          "(C03_len_appends) - each also when followed by any chain of fresh names (name[new()]/x/y appends {x: {y: v}}); "
+         "(3b) the general statement over the step type CStep (name | name[e] | [e]) with reference semantics createIn: for "
+         "every path of the honoured grammar G_ok of any length whose first step is a fresh name, name[new()] (fresh or "
+         "existing name), name[0] (fresh) or name[len] below an existing dict node and whose later steps are fresh names, "
+         "n[new()] or n[0], d[path]=v yields exactly createIn (C03_create_partial, by mutual induction over the two states "
+         "of _add: inside a dict / on a list with a placeholder); "
          "(4) frame: every node that existed keeps position and value, except ancestors of the written slot; elements of the "
          "list stay, a wrapped value moves below index 0 (C03_frame_new_slot, C03_frame_append, C03_frame_wrap); read-back: "
-         "getItem returns v through the same path with the index replaced by last() and does not change the tree "
-         "(C03_read_back_names, C03_read_back_elem). Stated, not proved: the statement for every path of the honoured grammar "
-         "G_ok over the step type CStep with reference semantics createIn (C03_create_stmt: open for an element-creating step "
-         "after names, several element-creating steps, bare [new()]/[len] below a list element), the general read-back "
-         "(C03_read_back_stmt). Refuted by counter-example theorems: an error leaves the tree unchanged "
+         "getItem returns v through the same path with the index replaced by last() and does not change the tree, for a "
+         "chain of names and for one element-creating step followed by names (C03_read_back_names, C03_read_back_elem). "
+         "Stated, not proved: C03_create_stmt (the same statement including a bare [new()]/[len] first step below a list; "
+         "open only for a list that is itself a list element, where it is false for plain lists: C03-c), the general "
+         "read-back for arbitrary paths (C03_read_back_stmt). Refuted by counter-example theorems: an error leaves the tree unchanged "
          "(C03_err_leaves_tree_false via C03_debris_cex = C03-a), silent misplacement (C03_misplaced_cex = C03-b), [new()] "
          "below an element of a plain list raises (C03_new_in_plain_list_cex = C03-c). Differential part: the model is compared "
          "with the real code on creation paths of every shape, inside and outside G_ok (tree after success and after failure); "
